@@ -70,12 +70,12 @@ JudgeFasta(e) ==
   \cup If(Len(e.read) # Len(e.written), {"fasta-count"})
   \cup UNION {If(j <= Len(e.read) /\ e.read[j].desc # e.written[j].desc, {"fasta-desc"})
               \cup If(j <= Len(e.read) /\ e.read[j].res # e.written[j].res, {"fasta-residues"})
-              \cup If(e.linelens[j] # (IF Len(e.written[j].res) = 0 THEN <<0>> ELSE WrapLines(Len(e.written[j].res), 70)), {"fasta-wrap"})
+              \cup If(j > Len(e.linelens) \/ (j <= Len(e.linelens) /\ e.linelens[j] # (IF Len(e.written[j].res) = 0 THEN <<0>> ELSE WrapLines(Len(e.written[j].res), 70))), {"fasta-wrap"})
              : j \in 1..Len(e.written)}
 
 \* GenBank record written as FASTA
 JudgeGbFasta(e) ==
-  LET want == IF e.region = <<>> THEN e.version \o " " \o e.definition
+  LET want == IF Len(e.region) # 2 THEN e.version \o " " \o e.definition
               ELSE e.version \o ":" \o ToString(e.region[1] + 1) \o "-" \o ToString(e.region[2]) \o " " \o e.definition
   IN If(e.panic # "", {"gbfasta-panic"})
      \cup If(e.panic = "" /\ e.desc # want, {"gbfasta-desc"})
